@@ -8,7 +8,7 @@
 (* accepted; the second words with y >= j have relative length             *)
 (* (x_m + u - j)/p1: to 2^-44.                                             *)
 (***************************************************************************)
-EXTENDS Limb14, BtpeTable, H2peTable, PdTable, MtTable, ChengTable, Rej64Table, GeoTable, BinvTable, Integers, Sequences, TLC, Json, IOUtils
+EXTENDS Limb14, BtpeTable, H2peTable, PdTable, MtTable, ChengTable, Rej64Table, GeoTable, BinvTable, HinTable, Integers, Sequences, TLC, Json, IOUtils
 
 TH == "TIER" \in DOMAIN IOEnv /\ IOEnv.TIER = "thorough"
 BTabX == IF TH THEN BTabT ELSE BTab
@@ -20,6 +20,7 @@ CTabX == IF TH THEN CTabT ELSE CTab
 JTabX == IF TH THEN JTabT ELSE JTab
 GTabX == IF TH THEN GTabT ELSE GTab
 VTabX == IF TH THEN VTabT ELSE VTab
+HNTabX == IF TH THEN HNTabT ELSE HNTab
 Rec == ndJsonDeserialize(IOEnv.TRACE)
 VARIABLE l
 Ev == Rec[l]
@@ -102,6 +103,14 @@ Rule == /\ Ev.res = "Ok"
                                   /\ Ev.mono /\ Len(Ev.T) = Len(a.xs)
                                   /\ Cmp(Ev.W1, Pow2(63)) >= 0
                                   /\ \A i \in 1..Len(a.xs) : Cmp(AbsDiff(Mul(Ev.T[i], Pow2(64)), Mul(a.xs[i].cdf, Ev.W1)), Pow2(128 - 40)) <= 0
+             \* HIN (Hypergeometric, mode - max(0, k - n2) < 10): one word per call, value monotone in the word (increasing or decreasing,
+             \* depending on the reductions): the words with X <= x resp. X >= x are a prefix of relative length P(X <= x) resp. P(X >= x),
+             \* to 2^-36 (the constructor's starting value is a product of up to 4N factors, each rounded)
+             [] Ev.op = "hin" -> LET a == HNTabX[Ev.case] IN
+                                 /\ Ev.mono /\ Ev.one_word /\ Len(Ev.T) = Len(a.xs) /\ Ev.dir \in {"inc", "dec"}
+                                 /\ \A i \in 1..Len(a.xs) : Near14(Ev.T[i], IF Ev.dir = "inc" THEN a.xs[i].le ELSE a.xs[i].ge, 64 - 36)
+             \* Binomial over random streams returns odd values too (the standard deviation of every probe is far above 1)
+             [] Ev.op = "btpeg" -> Ev.tzmin = 0
              [] OTHER -> FALSE
 
 TInit == l = 1
